@@ -258,7 +258,7 @@ def plan_from_states(states, mode, cap=None):
         keep = sorted(r.sample(range(len(tr)), cap))
         tr = [tr[i] for i in keep]
     nslots = 2 if tier() == "quick" else 4
-    nregauge = 6 if tier() == "quick" else 19
+    nregauge = 4 if tier() == "quick" else 19
     insts = []
     tid = 0
     for s in tr:
